@@ -22,6 +22,7 @@ import featlib
 from featlib import Check, rel
 import refine_tables as rt
 from refine_tables import Lin, Unsupported, SymEval, targs, shape_of, shape_name
+import norm_c10
 
 GEO = featlib.repo_path("kernel/geometry/")
 FILES = GEO + "|" + featlib.repo_path("kernel/shape.hpp") + "|/verif/tu/c10_"
@@ -1662,7 +1663,8 @@ def declare_rules(ck):
     ck.rule("E10.transfer-siblings", "kernel/geometry classes: move constructor, move assignment, clone(other) and clone() of one class transfer the same data members - a member transferred by one sibling is "
             "transferred or re-established by every other (otherwise the destination keeps a stale member, e.g. the facet neighbours of the mesh that was overwritten)", min_instances=137)
     ck.rule("E10.collection-guards", "mesh_node.hpp: a loop over one member collection of a node (mesh part nodes, halos, patches, ...) is not reached only under a condition on a different member collection "
-            "(an early-out on the emptiness of one collection must not skip the processing of the others, e.g. permuting the halos of a node without mesh parts)", min_instances=30)
+            "(an early-out on the emptiness of one collection must not skip the processing of the others, e.g. permuting the halos of a node without mesh parts); loops whose "
+            "iterators are obtained before the loop and calls of helpers that loop over a member collection (their own, or the one handed over as argument) count as loops", min_instances=96)
     ck.rule("E10.dual-adapt", "DualAdaptor::adapt (refine_unique with AdaptMode::dual): the only fine vertices modified are the cell midpoints, numbered like the vertex refiner numbers them "
             "(sum of the coarse entity counts of lower dimension + i), each written once (cleared first) as the mean of the facet midpoints of its own cell, addressed by the facet-midpoint offset "
             "of the same numbering (any hexahedral mesh with AdaptMode::dual otherwise gets wrong geometry)", min_instances=6)
@@ -1677,6 +1679,11 @@ def declare_rules(ck):
     ck.rule("E10.child-volume", "the volumes of the fine cells of one reference cell add up to its volume (total volume preserved on affine cells)", min_instances=6)
     if ck.tier == "thorough":
         ck.rule("E10.build-same", "the anchored functions instantiated by the repository's own refinement tests are (structurally) the functions analysed in the driver TU", min_instances=5)
+    ck.rule("E10.topology-coverage", "functions that (re)build the topology held by an IndexSetHolder<Shape> - RedundantIndexSetBuilder<Shape>::compute (all redundant sets "
+            "<m,f>, 1 <= f < m <= dim) and MeshPart::deduct_topology (all sets <m,f>, 0 <= f < m <= dim, of the part's new holder) - define every such index set on every path, "
+            "followed through the template recursions and helpers down to the stores; a definition may be skipped only where the holder has no entities of a dimension d <= m "
+            "(then it has no m-entities either), never depending on the count of a higher dimension: the holder of a mesh part is typed by the parent's shape, so a surface "
+            "part of a 3D mesh has no cells but needs edges-at-face, and a full-dimensional part needs vertices-at-cell (the refined part otherwise no longer follows its parent entities)", min_instances=28)
     ck.rule("E10.no-orphan", "every fine entity of lower dimension created in the closure of the coarse cell is referenced by some fine cell", min_instances=83)
 
 
@@ -2184,42 +2191,103 @@ def tainted_by_refinement(n, fn, inits, seen=None):
 
 
 def check_refine_parent(ck, facts):
-    """every StandardRefinery<MeshPart> built while refining a node gets the *coarse* mesh of that node as parent"""
+    """every StandardRefinery<MeshPart> built while refining a node gets the *coarse* mesh of that node as parent.
+    Helpers are followed: a refinery site inside a helper of mesh_node.hpp that is called from several places counts once per
+    call site (each loop that refines parts through the helper is an instance), a parent argument that is a parameter of the
+    helper is traced into the caller's argument, and the coarse mesh of the refinement step is the one of the calling function
+    when the helper itself builds no mesh refinery."""
     R = "E10.refine-parent"
-    for f in facts.functions:
-        if f.tk == "pattern" or f.body is None or "/kernel/geometry/mesh_node.hpp" not in f.file:
-            continue
+    fns = [f for f in facts.functions if f.tk != "pattern" and f.body is not None and "/kernel/geometry/mesh_node.hpp" in f.file]
+    by_decl = {(f.qn, f.d.get("decl")): f for f in fns}
+
+    def lookup(c):
+        return by_decl.get((c.get("callee"), c.get("cdecl")))
+
+    def sites_of(f):
         sites = []
         for n in f.nodes():
             if n.get("k") in ("Construct", "TempObj") and re.match(r"^FEAT::Geometry::StandardRefinery<FEAT::Geometry::MeshPart<", n.get("ccls", "")) and len(n.get("a", [])) == 2:
                 sites.append(("refinery", n, n["a"][1]))
             if n.get("k") == "MCall" and re.search(r"MeshPartNode<.*>::refine$", n.get("callee", "")) and len(n.get("a", [])) == 1:
                 sites.append(("refine-call", n, n["a"][0]))
+        return sites
+
+    def coarse_of(f, inits):
+        # the coarse mesh of this refinement step: what the mesh refinery of the same function is built from
+        return {origin(n["a"][0], f, inits) for n in f.nodes() if n.get("k") in ("Construct", "TempObj")
+                and re.match(r"^FEAT::Geometry::StandardRefinery<FEAT::Geometry::(ConformalMesh|StructuredMesh)<", n.get("ccls", "")) and len(n.get("a", [])) == 1}
+
+    site_map = {id(f): sites_of(f) for f in fns}
+    callers = {}
+    for g in fns:
+        site_nodes = {id(n) for _, n, _ in site_map[id(g)]}
+        for c in g.nodes():
+            if featlib.is_call(c) and c.get("callee") and id(c) not in site_nodes:
+                t = lookup(c)
+                if t is not None and t is not g:
+                    callers.setdefault(id(t), []).append((g, c))
+
+    def judge(f, parg, ctx, depth=0):
+        """-> (ok|None, detail); ctx = (caller fn, call node) the function f was entered through, or None"""
+        inits = local_inits(f)
+        coarse = coarse_of(f, inits)
+        up = ctx
+        hops = 0
+        while not coarse and up is not None and hops < 3:
+            coarse = coarse_of(up[0], local_inits(up[0]))
+            ups = callers.get(id(up[0]), [])
+            up = ups[0] if len(ups) == 1 else None
+            hops += 1
+        o = origin(parg, f, inits)
+        if o is None:
+            return None, "origin of the parent argument %s not traceable" % featlib.render(parg)
+        if o[0] == "member":
+            ok = not coarse or o in coarse
+            return ok, "parent is member %s%s" % (o[1], "" if ok else " but the mesh refinery of this refinement step refines %s" % sorted(coarse, key=repr))
+        if o[0] == "param":
+            if ctx is not None and depth < 3:
+                g, c = ctx
+                names = [p["n"] for p in f.params]
+                if o[1] in names and names.index(o[1]) < len(c.get("a", [])):
+                    ups = callers.get(id(g), [])
+                    ok, detail = judge(g, c["a"][names.index(o[1])], ups[0] if len(ups) == 1 else None, depth + 1)
+                    return ok, "parent is parameter %s of %s, bound at %s:%s to `%s`: %s" % (o[1], f.name, g.name, c.get("l"), featlib.render(c["a"][names.index(o[1])]), detail)
+            pt = f.param_type(o[1]) or ""
+            const_in = pt.lstrip().startswith("const ")
+            return const_in, "parent is parameter %s (%s)%s" % (o[1], pt, "" if const_in else ": a mutable reference parameter is the node under construction, not the coarse parent")
+        if tainted_by_refinement(parg, f, inits):
+            return False, "parent %s is derived from the result of a refinery (the refined node/mesh), expected the coarse mesh %s" % (
+                featlib.render(parg), sorted(coarse, key=repr) if coarse else "of the node being refined")
+        return None, "parent argument %s is a computed local" % featlib.render(parg)
+
+    for f in fns:
+        sites = site_map[id(f)]
         if not sites:
             continue
-        inits = local_inits(f)
-        # the coarse mesh of this refinement step: what the mesh refinery of the same function is built from
-        coarse = {origin(n["a"][0], f, inits) for n in f.nodes() if n.get("k") in ("Construct", "TempObj")
-                  and re.match(r"^FEAT::Geometry::StandardRefinery<FEAT::Geometry::(ConformalMesh|StructuredMesh)<", n.get("ccls", "")) and len(n.get("a", [])) == 1}
+        ctxs = []
+        for g, c in callers.get(id(f), []):
+            # instantiations of one source function that call f from the same source line are one place
+            if not any(g2.qn == g.qn and c2.get("l") == c.get("l") for g2, c2 in ctxs):
+                ctxs.append((g, c))
         for num, (kind, n, parg) in enumerate(sites):
-            key = "%s::%s/%s%d" % (short(f.cls)[:110], f.name, kind, num)
-            o = origin(parg, f, inits)
-            if o is None:
-                ck.incomplete(R, "%s: origin of the parent argument %s not traceable" % (key, featlib.render(parg)))
-                continue
-            if o[0] == "member":
-                ok = not coarse or o in coarse
-                ck.ob(R, key, ok, "parent is member %s%s" % (o[1], "" if ok else " but the mesh refinery of this function refines %s" % sorted(coarse, key=repr)), f.file, n.get("l"))
-            elif o[0] == "param":
-                pt = f.param_type(o[1]) or ""
-                const_in = pt.lstrip().startswith("const ")
-                ck.ob(R, key, const_in, "parent is parameter %s (%s)%s" % (o[1], pt, "" if const_in else ": a mutable reference parameter is the node under construction, not the coarse parent"), f.file, n.get("l"))
+            base = "%s::%s/%s%d" % (short(f.cls)[:110], f.name, kind, num)
+            if len(ctxs) >= 2:
+                # a shared helper: one instance per place that refines parts through it
+                per_caller = {}
+                for g, c in ctxs:
+                    j = per_caller[id(g)] = per_caller.get(id(g), -1) + 1
+                    key = "%s@%s#%d" % (base, g.name, j)
+                    ok, detail = judge(f, parg, (g, c))
+                    if ok is None:
+                        ck.incomplete(R, "%s: %s" % (key, detail))
+                    else:
+                        ck.ob(R, key, ok, detail + " (helper entered from %s line %s)" % (g.name, c.get("l")), f.file, n.get("l"))
             else:
-                if tainted_by_refinement(parg, f, inits):
-                    ck.ob(R, key, False, "parent %s is derived from the result of a refinery (the refined node/mesh), expected the coarse mesh %s" % (
-                        featlib.render(parg), sorted(coarse, key=repr) if coarse else "of the node being refined"), f.file, n.get("l"))
+                ok, detail = judge(f, parg, ctxs[0] if ctxs else None)
+                if ok is None:
+                    ck.incomplete(R, "%s: %s" % (base, detail))
                 else:
-                    ck.incomplete(R, "%s: parent argument %s is a computed local" % (key, featlib.render(parg)))
+                    ck.ob(R, base, ok, detail, f.file, n.get("l"))
 
 
 def const_int(n):
@@ -2592,42 +2660,175 @@ def check_transfer_siblings(ck, facts):
                   if missing else "transfers %s" % sorted(d["t"]), d["fn"].file, d["fn"].line)
 
 
+def check_topology_coverage(ck, facts):
+    """every index set <m,f> of the holder is defined on every path of the topology builders (see the rule text)"""
+    R = "E10.topology-coverage"
+    anchors = []
+    for f in facts.functions:
+        if f.tk == "pattern" or f.body is None:
+            continue
+        if re.match(r"^FEAT::Geometry::RedundantIndexSetBuilder<.*>::compute$", f.qn) and len(f.params) == 1:
+            anchors.append((f, "param", 1))
+        elif re.match(r"^FEAT::Geometry::MeshPart<.*>::deduct_topology$", f.qn) and len(f.params) == 1:
+            anchors.append((f, "member", 0))
+    if not any(a[1] == "param" for a in anchors) or not any(a[1] == "member" for a in anchors):
+        ck.incomplete(R, "anchor functions RedundantIndexSetBuilder::compute / MeshPart::deduct_topology not found")
+    for f, how, fmin in sorted(anchors, key=lambda a: a[0].full):
+        dim = norm_c10.shape_dim(f.cls)
+        if dim is None:
+            ck.incomplete(R, "%s: shape dimension not recognised" % short(f.cls))
+            continue
+        de = norm_c10.DefEvents(facts)
+        if how == "param":
+            de.analyse(f, {f.params[0]["d"]: ("H",)})
+        else:
+            # the part's own holder: the unique_ptr member whose pointee type is the IndexSetHolder of the part
+            members = sorted({x["n"] for x in f.nodes() if x.get("k") == "Member" and x.get("b", {}).get("k") == "This" and "IndexSetHolder" in (f.ntype(x) or "")})
+            if len(members) != 1:
+                ck.incomplete(R, "%s::%s: the index set holder member is not identifiable (%s)" % (short(f.cls), f.name, members))
+                continue
+            de.analyse(f, {}, members=tuple(members))
+        for m in range(1, dim + 1):
+            for fd in range(fmin, m):
+                key = "%s::%s/<%d,%d>" % (short(f.cls)[:110], f.name, m, fd)
+                evs = [e for e in de.events if (e.m, e.f) == (m, fd)]
+
+                def bad_guards(e):
+                    return [g for g in e.guards if g[0] == "unknown" or not (g[0] == "count" and g[2] == "nonzero" and g[1] <= m)]
+                good = [e for e in evs if not bad_guards(e)]
+                if good:
+                    e = good[0]
+                    ck.ob(R, key, True, "defined in %s (line %s)%s" % (short(e.fn.cls) + "::" + e.fn.name, e.line,
+                          (", skipped only without entities of dimension %s" % sorted({g[1] for g in e.guards})) if e.guards else ", unconditionally"), f.file, f.line)
+                    continue
+                unknown = [(e, g) for e in evs for g in bad_guards(e) if g[0] == "unknown"]
+                definite = [(e, g) for e in evs for g in bad_guards(e) if g[0] == "count"]
+                if evs and unknown and not [e for e in evs if all(g[0] != "unknown" for g in bad_guards(e))]:
+                    e, g = unknown[0]
+                    ck.incomplete(R, "%s: the store at %s:%s is reached under the entity-count condition `%s` (%s:%s), which this rule does not understand" % (
+                        key, rel(e.fn.file), e.line, g[1], rel(g[2].file), g[3]))
+                    continue
+                if evs:
+                    definite.sort(key=lambda eg: (any(x[0] == "count" and x[2] == "zero" for x in eg[0].guards), eg[1][2] != "nonzero"))
+                    e, g = (definite or [(evs[0], None)])[0]
+                    if g is None:
+                        ck.incomplete(R, "%s: guards of the store at %s:%s not understood" % (key, rel(e.fn.file), e.line))
+                        continue
+                    if g[2] == "nonzero":
+                        why = ("the index set <%d,%d> is only computed if the holder has entities of dimension %d > %d (condition `%s` at %s:%s): the holder of a mesh part without "
+                               "%d-dimensional entities (e.g. a surface part of a volume mesh) keeps this set unset although it has %d-dimensional entities" % (
+                                   m, fd, g[1], m, g[3], rel(g[4].file), g[5], g[1], m))
+                    else:
+                        why = "the index set <%d,%d> is only computed if the holder has NO entities of dimension %d (condition `%s` at %s:%s)" % (m, fd, g[1], g[3], rel(g[4].file), g[5])
+                    ck.ob(R, key, False, why + "; entry %s, store in %s line %s" % (f.name, short(e.fn.cls) + "::" + e.fn.name, e.line), g[4].file, g[5])
+                    continue
+                if de.escapes:
+                    t, efn, el = de.escapes[0]
+                    ck.incomplete(R, "%s: no store found, but %s (%s:%s)" % (key, t, rel(efn.file), el))
+                    continue
+                covered = sorted({(e.m, e.f) for e in de.events})
+                ck.ob(R, key, False, "no path from %s::%s stores into the index set <%d,%d> of the holder (sets defined: %s): the template recursions entered by this function do not cover "
+                      "cell dimension %d / face dimension %d, e.g. a recursion entered below the shape dimension %d" % (short(f.cls), f.name, m, fd,
+                                                                                                                   ", ".join("<%d,%d>" % c for c in covered) or "none", m, fd, dim), f.file, f.line)
+
+
+
 def is_container_type(ty):
     return bool(re.match(r"^(const )?std::(map|vector|deque|list|set|unordered_map|multimap)<", (ty or "").strip()))
 
 
 def check_collection_guards(ck, facts):
     """mesh_node.hpp: a loop over one member collection (mesh parts / halos / patches ...) is not guarded by a
-    property of a different member collection (early-out or enclosing condition)"""
+    property of a different member collection (early-out or enclosing condition).  Helpers are followed: a call (on the same
+    node) of a helper of mesh_node.hpp that loops over a member collection - its own member, or the member handed over as the
+    argument its loop runs over - is a loop over that collection at the call site."""
     R = "E10.collection-guards"
-    for f in facts.functions:
-        if f.tk == "pattern" or f.body is None or not f.file.endswith("/kernel/geometry/mesh_node.hpp"):
-            continue
+    fns = [f for f in facts.functions if f.tk != "pattern" and f.body is not None and f.file.endswith("/kernel/geometry/mesh_node.hpp")]
+    by_decl = {(f.qn, f.d.get("decl")): f for f in fns}
 
-        # member collections of the node: members used like containers in this function (begin/end/empty/size/find/range-for)
-        names = set()
+    def strip(o):
+        while o is not None and o.get("k") == "Cast":
+            o = o["e"]
+        return o
+
+    # member collections of the nodes: members used like containers somewhere in mesh_node.hpp (begin/end/empty/size/find/range-for)
+    names = set()
+    for f in fns:
         for x in f.nodes():
+            o = None
             if x.get("k") == "MCall" and x.get("n") in ("begin", "end", "cbegin", "cend", "empty", "size", "find", "count") and x.get("obj") is not None:
-                o = x["obj"]
-                while o.get("k") == "Cast":
-                    o = o["e"]
-                if o.get("k") == "Member" and o.get("b", {}).get("k") == "This":
-                    names.add(o["n"])
+                o = strip(x["obj"])
             if x.get("k") == "ForRange" and x.get("range") is not None:
-                o = x["range"]
-                while o.get("k") == "Cast":
-                    o = o["e"]
-                if o.get("k") == "Member" and o.get("b", {}).get("k") == "This":
-                    names.add(o["n"])
+                o = strip(x["range"])
+            if o is not None and o.get("k") == "Member" and o.get("b", {}).get("k") == "This":
+                names.add(o["n"])
 
-        def colls_in(n):
-            return {x["n"] for x in featlib.walk(n) if x.get("k") == "Member" and x.get("b", {}).get("k") == "This" and x["n"] in names}
+    def colls_in(n):
+        return {x["n"] for x in featlib.walk(n) if x.get("k") == "Member" and x.get("b", {}).get("k") == "This" and x["n"] in names}
 
-        def coll_of(n):
-            """member collection an iteration-domain expression belongs to"""
-            cs = sorted(colls_in(n))
-            return cs[0] if len(cs) == 1 else None
+    inits_of = {}
 
+    def coll_of(n, fn=None):
+        """member collection an iteration-domain expression belongs to (iterator locals declared before the loop are
+        resolved to the collection they were obtained from)"""
+        cs = set(colls_in(n))
+        if fn is not None:
+            inits = inits_of.setdefault(id(fn), local_inits(fn))
+            todo, seen_d = [n], set()
+            while todo:
+                for x in featlib.walk(todo.pop()):
+                    if x.get("k") == "Ref" and x.get("dk") == "local" and x.get("d") in inits and x["d"] not in seen_d and len(seen_d) < 8:
+                        seen_d.add(x["d"])
+                        cs |= colls_in(inits[x["d"]])
+                        todo.append(inits[x["d"]])
+        cs = sorted(cs)
+        return cs[0] if len(cs) == 1 else None
+
+    def loop_domain(n):
+        k = n.get("k")
+        return n.get("range") if k == "ForRange" else (n.get("init") if n.get("init") is not None else n.get("c"))
+
+    def on_this(c):
+        """the call runs on the node itself (member call on this) or is a static helper without an object"""
+        if c.get("k") == "MCall":
+            o = strip(c.get("obj"))
+            return o is None or o.get("k") == "This"
+        return c.get("k") == "Call" and bool(c.get("cstatic"))
+
+    summaries = {}
+
+    def summary(t, depth=0):
+        """-> (member collections t loops over, incl. through helpers it calls on itself; indices of the parameters its loops run over)"""
+        if id(t) in summaries:
+            return summaries[id(t)]
+        summaries[id(t)] = (set(), set())        # recursion guard
+        own, params = set(), set()
+        pdecl = {p["d"]: i for i, p in enumerate(t.params)}
+        for n in t.nodes():
+            if n.get("k") in ("For", "ForRange", "While"):
+                dom = loop_domain(n)
+                if dom is None:
+                    continue
+                c = coll_of(dom, t)
+                if c is not None:
+                    own.add(c)
+                for x in featlib.walk(dom):
+                    if x.get("k") == "Ref" and x.get("d") in pdecl:
+                        params.add(pdecl[x["d"]])
+            if featlib.is_call(n) and depth < 3:
+                u = by_decl.get((n.get("callee"), n.get("cdecl")))
+                if u is not None and u is not t and on_this(n):
+                    uo, up = summary(u, depth + 1)
+                    own |= uo
+                    for i in up:
+                        if i < len(n.get("a", [])):
+                            a = strip(n["a"][i])
+                            if a is not None and a.get("k") == "Member" and a.get("b", {}).get("k") == "This" and a["n"] in names:
+                                own.add(a["n"])
+        summaries[id(t)] = (own, params)
+        return summaries[id(t)]
+
+    for f in fns:
         loops = []
 
         def exits(st):
@@ -2640,6 +2841,24 @@ def check_collection_guards(ck, facts):
                 return any(exits(x) for x in st.get("s", []))
             return False
 
+        def helper_calls(n, guards):
+            """calls (on this node) of helpers that loop over member collections, inside one expression/simple statement"""
+            for c in featlib.walk(n, prune=lambda y: y.get("k") in ("Lambda", "Block", "If", "For", "ForRange", "While", "Do", "Switch")):
+                if not featlib.is_call(c):
+                    continue
+                t = by_decl.get((c.get("callee"), c.get("cdecl")))
+                if t is None or t is f or not on_this(c):
+                    continue
+                own, params = summary(t)
+                cs = set(own)
+                for i in params:
+                    if i < len(c.get("a", [])):
+                        a = strip(c["a"][i])
+                        if a is not None and a.get("k") == "Member" and a.get("b", {}).get("k") == "This" and a["n"] in names:
+                            cs.add(a["n"])
+                for col in sorted(cs):
+                    loops.append((col, c, list(guards), t.name))
+
         def visit(n, guards):
             k = n.get("k")
             if k == "Block":
@@ -2650,29 +2869,36 @@ def check_collection_guards(ck, facts):
                         g = g + [st["c"]]          # early-out: everything after it is guarded by its condition
                 return
             if k == "If":
+                helper_calls(n["c"], guards)
                 for br in ("then", "else"):
                     if n.get(br) is not None:
                         visit(n[br], guards + [n["c"]])
                 return
             if k in ("For", "ForRange", "While"):
-                dom = n.get("range") if k == "ForRange" else (n.get("init") if n.get("init") is not None else n.get("c"))
-                c = coll_of(dom) if dom is not None else None
+                dom = loop_domain(n)
+                c = coll_of(dom, f) if dom is not None else None
                 if c is not None:
-                    loops.append((c, n, list(guards)))
+                    loops.append((c, n, list(guards), None))
                 if n.get("body") is not None:
                     visit(n["body"], guards)
                 return
-            for c in featlib.children(n):
-                if c.get("k") in ("Block", "If", "For", "ForRange", "While", "Do", "Switch", "Case", "Default", "Try"):
-                    visit(c, guards)
+            if k in ("Do", "Switch", "Case", "Default", "Try"):
+                for c in featlib.children(n):
+                    if c.get("k") in ("Block", "If", "For", "ForRange", "While", "Do", "Switch", "Case", "Default", "Try"):
+                        visit(c, guards)
+                    else:
+                        helper_calls(c, guards)
+                return
+            helper_calls(n, guards)
         visit(f.body, [])
         seen = {}
-        for c, n, guards in loops:
+        for c, n, guards, via in loops:
             seen[c] = seen.get(c, 0) + 1
             key = "%s::%s/loop(%s)%s" % (short(f.cls)[:110], f.name, c, "#%d" % seen[c] if seen[c] > 1 else "")
             foreign = sorted(set().union(*[colls_in(g) for g in guards]) - {c}) if guards else []
-            ck.ob(R, key, not foreign, ("the loop over %s is only reached under a condition on %s: it is skipped although %s has elements to process" % (c, foreign, c)) if foreign
-                  else "reached under %d conditions, none on another collection" % len(guards), f.file, n.get("l"))
+            what = "the loop over %s" % c if via is None else "the loop over %s in the helper %s called here" % (c, via)
+            ck.ob(R, key, not foreign, ("%s is only reached under a condition on %s: it is skipped although %s has elements to process" % (what, foreign, c)) if foreign
+                  else "%s: reached under %d conditions, none on another collection" % (what, len(guards)), f.file, n.get("l"))
 
 
 class Prefixed:
@@ -2745,6 +2971,7 @@ def analyse(ck, facts, second_pass=False):
         check_perm_pairs(ck, facts)
         check_transfer_siblings(ck, facts)
         check_collection_guards(ck, facts)
+        check_topology_coverage(ck, facts)
         check_callsites(ck, facts)
         check_flips(T, ck, facts)
     # assertions met while evaluating the glue classes on concrete local indices (visible in DEBUG parses)
@@ -2787,9 +3014,11 @@ def run(tier):
     ck.assume("cell-locality: a template reads only index-set rows of the coarse entity it refines, of its faces and of its edges (verified by E10.slot-origin), so the "
               "reference-cell case analysis covers every conforming mesh")
     ck.assume("E10.child-orientation/-volume use affine cells: vertex coordinates of new vertices are the means decided by E10.vertex-mean")
+    ck.assume("E10.topology-coverage: an index set holder is closed under faces (an m-entity's d-faces, d <= m, are entities of the same holder), so the absence of d-entities implies the "
+              "absence of m-entities for m >= d; conditions that do not query an entity count (data-dependent failure exits) are not coverage conditions")
     extra = {"templates_covered": covered,
              "not_covered": ["StandardTargetRefiner<Hypercube<3>|Simplex<3>, cell_dim>=0>: mesh parts with 3D cells (the repository aborts with XASSERT num_cells == 0)",
-                             "adaptation to charts, BoundaryFactory, FacetNeighbors, IndexCalculator, MeshPermutation, structured meshes",
+                             "adaptation to charts, BoundaryFactory, FacetNeighbors, the values IndexCalculator/IndexSetFiller compute (E10.topology-coverage decides only which index sets are computed on which paths), structured meshes",
                              "TargetSetRefineParentWrapper<StructuredMesh> (structured parents), StandardAttribRefiner (mesh part attributes), CongruencySampler::orientation / CongruencyMapping::flip"]}
     if tier == "thorough":
         import json
